@@ -137,3 +137,28 @@ Definition r_lib : tabs -> dict -> node -> N := chk_r pv_lib dict_same.
 Definition r_li (t : tabs) : option color * option dict -> node -> N := chk_r (pv_li (T_pf t)) li_eqb t.
 Definition r_groups : tabs -> GR.groups -> node -> N := chk_r pv_groups groups_eqb.
 Definition r_kerning (t : tabs) : GR.kerning -> node -> N := chk_r (pv_kerning (T_to_bits t)) kerning_eqb t.
+
+(** ---------- fontinfo.plist: the schema-directed codec on norad's FontInfo schema ---------- *)
+Require Import Norad.Model.FontInfoFile Norad.Model.FontInfoSchema.
+Fixpoint sval_eqb (a b : sval) : bool :=
+  match a, b with
+  | VStr s1, VStr s2 => str_eqb s1 s2
+  | VBool b1, VBool b2 => Bool.eqb b1 b2
+  | VInt z1, VInt z2 => (z1 =? z2)%Z
+  | VNum x1, VNum x2 => fl_same x1 x2
+  | VList l1, VList l2 | VRec l1, VRec l2 =>
+      (fix go (x y : list sval) : bool :=
+         match x, y with
+         | [], [] => true
+         | p :: x', q :: y' => sval_eqb p q && go x' y'
+         | _, _ => false
+         end) l1 l2
+  | VOpt None, VOpt None => true
+  | VOpt (Some x), VOpt (Some y) => sval_eqb x y
+  | _, _ => false
+  end.
+(** 5 = the value handed over is not a value of the schema (the driver's conversion is off) *)
+Definition k_info (t : tabs) (v : sval) (n : node) : N :=
+  if negb (wt font_info_schema v) then 5
+  else chk (write_s font_info_schema) (read_s font_info_schema) sval_eqb t v n.
+Definition r_info : tabs -> sval -> node -> N := chk_r (read_s font_info_schema) sval_eqb.
